@@ -20,12 +20,31 @@ fn main() {
     let mut out = BufWriter::new(std::fs::File::create(&args[3]).expect("create output"));
     match args[1].as_str() {
         "api" => {
+            // Each history runs in a forked child: a panic inside a destructor while another panic
+            // unwinds (poisoned locks) aborts the process, and that must be data, not a tool failure.
             clock::enable();
             for line in input.lines() {
                 let line = line.unwrap();
                 if line.trim().is_empty() { continue; }
                 let hist: serde_json::Value = serde_json::from_str(&line).expect("bad history json");
-                api::run_history(&hist, &mut out);
+                out.flush().unwrap();
+                let pid = unsafe { libc::fork() };
+                if pid == 0 {
+                    api::run_history(&hist, &mut out);
+                    out.flush().unwrap();
+                    unsafe { libc::_exit(0) };
+                }
+                let mut status: libc::c_int = 0;
+                unsafe { libc::waitpid(pid, &mut status, 0); }
+                if !(libc::WIFEXITED(status) && libc::WEXITSTATUS(status) == 0) {
+                    use std::io::Seek;
+                    out.flush().unwrap();
+                    let _ = out.get_mut().seek(std::io::SeekFrom::End(0));
+                    let n = hist["ops"].as_array().map(|a| a.len()).unwrap_or(0);
+                    writeln!(out, "{}", serde_json::json!({"h": hist["h"], "i": n + 1, "op": "abort", "b": 0, "calls": [], "q": 0, "t": 0, "ret": "abort",
+                        "panic": format!("process aborted (status {status}): panic while panicking"), "pipe": 0, "failed": 0,
+                        "frac": -1, "shown": [], "get": {"has": false, "pos": [0,0,0,0,0], "pos_s": 0, "len": [0,0,0,0,0], "len_s": 0, "haslen": false, "msg": [], "prefix": [], "fin": false}})).unwrap();
+                }
             }
         }
         "show" => {
